@@ -116,7 +116,8 @@ CHECKS["C04"] = dict(
          "served by it never decrease; the bucket's capacity() equals its number of free cells; hence once everything is released every bucket's capacity is at least its "
          "initial capacity plus what was live; a request served from the list takes exactly one cell of that bucket, a release returns exactly one; the same with allocate_array / "
          "try_allocate_array / deallocate_array in the history (Props/C04CollArr: the ledger counts cells, an array is its consecutive cells; an array served from the list takes exactly "
-         "its cells, a release of a held array returns exactly them). (2) per-list facts: capacity counter = number of free nodes for every operation of the unordered list and chunk "
+         "its cells, a release of a held array returns exactly them; reserve(size, capacity) is an operation of these histories and, when it succeeds, gives its bucket at least one more "
+         "free cell - defect D34, repaired). (2) per-list facts: capacity counter = number of free nodes for every operation of the unordered list and chunk "
          "capacities of the small list; allocate+release restores the unordered list exactly (arrays: as a permutation, exactly ceil(n/ns) "
          "cells both ways); ordered list: find_pos is correct for every sorted list, cursor and address; pools/collections never call the "
          "block source while the matching list holds a node; m node allocations with >= m free nodes never grow. Tied by state-dump "
